@@ -149,6 +149,8 @@ pub fn run_monitor(scn: &Scn, ctx: &mut Ctx) -> Result<(), Violation> {
     let mut next = 0usize;
     let mut forked_this_halt = false;
     let mut first_byte_stop = true;
+    // the byte the CPU last read from the bus (address, value), observed on the control word
+    let mut last_read: Option<(u8, u8)> = None;
     for t in 0..s.max_edges {
         while next < s.events.len() && s.events[next].0 <= t {
             let st = &s.events[next].1;
@@ -194,10 +196,20 @@ pub fn run_monitor(scn: &Scn, ctx: &mut Ctx) -> Result<(), Violation> {
             let c = m.registers().content();
             return Err(v("running-with-invalid-register", t, format!("machine is Running with SP=0x{:02X} PC=0x{:02X} under stack size {} / limit {:?}", c[5], c[3], lim.stack, lim.limit)));
         }
+        let word_before = crate::sut::control_word(&m);
         m.raw_mut().trigger_clock_edge();
         ctx.cov.sim_edges += 1;
         let now = m.state();
         let c = *m.registers().content();
+        {
+            // (only on the edge that executed the reading word, not on its memory-wait edge, after
+            // which a stimulus may already have changed the cell)
+            let sg = m.signals();
+            if sg.busen() && !sg.buswr() && crate::sut::control_word(&m) != word_before {
+                let a = *m.registers().get(sg.selected_register_a());
+                last_read = Some((a, m.bus().read(a)));
+            }
+        }
         let ir_loaded = fetch_before && !word_is_fetch(&m);
         if ir_loaded {
             first_byte_stop = done_before;
@@ -220,6 +232,14 @@ pub fn run_monitor(scn: &Scn, ctx: &mut Ctx) -> Result<(), Violation> {
                 }
             }
             State::ErrorStopped => {
+                if !bad && ir_loaded && ir == 0x00 {
+                    // "never error-stops for any other reason": the 0x00 must really have been fetched
+                    if let Some((a, val)) = last_read {
+                        if val != 0x00 {
+                            return Err(v("unjustified-error-stop", t, format!("error stop on opcode 0x00, but the byte the CPU fetched (from 0x{:02X}) was 0x{:02X}; SP=0x{:02X} PC=0x{:02X} are valid", a, val, c[5], c[3])));
+                        }
+                    }
+                }
                 let why = if bad { "register" } else if ir_loaded && ir == 0x00 { "opcode-00" } else { "" };
                 if why.is_empty() {
                     return Err(v("unjustified-error-stop", t, format!("error stop with SP=0x{:02X} PC=0x{:02X} valid (stack size {}, limit {:?}) and no 0x00 opcode loaded (IR=0x{:02X})", c[5], c[3], lim.stack, lim.limit, ir)));
